@@ -409,6 +409,23 @@ func c01Print(c *Ctx, eng *slicefx.Engine, rule string) {
 		pos := c.P.Pos(l.Body.Instrs[0].Pos())
 		r.Check(good, rule, fmt.Sprintf("%s#printed-list-%d-bounded", fk, n), pos, "the list printed is bounded by the limit handed to the engine", "the list that is printed can be longer than the limit in force ("+f.Plain(l.Over)+": "+b.String()+"); the last-resort recovery list is not truncated")
 	}
+	// the list handed to a printing helper: its loops print what they are given
+	for _, rt := range outputRoutines(c, run) {
+		b := eng.BoundsOf(run, rt.arg)
+		good := b.Empty
+		for k := range b.Limits {
+			if _, ok := eb.Limits[k]; ok {
+				good = true
+			}
+		}
+		for _, l := range ssau.RangeLoops(rt.fn) {
+			if l.Over == nil || l.IsMap || !(l.Over == ssa.Value(rt.param) || ssau.ParamOf(l.Over) == rt.param) {
+				continue
+			}
+			n++
+			r.Check(good, rule, fmt.Sprintf("%s#printed-list-%d-bounded", fk, n), c.P.Pos(rt.call.Pos()), "the list handed to "+rt.fn.Name()+" is bounded by the limit handed to the engine", "the list that "+rt.fn.Name()+" prints can be longer than the limit in force ("+f.Plain(rt.arg)+": "+b.String()+"); the last-resort recovery list is not truncated")
+		}
+	}
 	r.Floor(rule, "print loops over the result list", n, 3)
 }
 
